@@ -450,7 +450,7 @@ PROPS = {
         "package": "check-k",
         "bin": "check-k",
         "design_ref": "§7 C19, §13.9",
-        "technique": "deterministic simulation of real OS threads under a baton scheduler (as C18): the real compio-actor on the real compio-dispatcher (1..2 worker threads with their own runtimes on their own simulated kernels), the main task and up to two client threads sending, calling, stopping and looking up concurrently; 1..3 recording actors (named or not, mailbox capacity 1..3 or default, one possibly failing in pre_start) whose handlers yield, sleep, fail, stop their own actor, reply to a call or drop it; thread interleaving (voluntary switches plus 0..4 generated preemptions), kernel faults and simulated time are drawn from the run's seed; oracles over the recorded history: hook order and uniqueness, no overlapping handlers, at most once, only accepted messages, per-sender gap-free FIFO prefix, everything handled when nobody stopped the actor (barrier call), call returns reply or explicit error within 5 s of simulated time, exit value, name resolves to the live actor only / refuses a second spawn / is free after exit or failed start; choice-sequence minimisation and replay",
+        "technique": "deterministic simulation of real OS threads under a baton scheduler (as C18): the real compio-actor on the real compio-dispatcher (1..2 worker threads with their own runtimes on their own simulated kernels), the main task and up to two client threads sending, calling, stopping and looking up concurrently; 1..3 recording actors (named or not, mailbox capacity 1..3 or default, one possibly failing in pre_start) whose handlers yield, sleep, fail, stop their own actor, reply to a call or drop it; thread interleaving (voluntary switches plus 0..4 generated preemptions), kernel faults and simulated time are drawn from the run's seed; oracles over the recorded history: hook order and uniqueness, no overlapping handlers, at most once, only accepted messages, per-sender gap-free FIFO prefix, everything handled when nobody stopped the actor (barrier call), call returns reply or explicit error within 5 s of simulated time, exit value, name resolves to the live actor only / refuses a second spawn / is free after exit or failed start; second scenario: a process group over 2..3 members with small mailboxes used from several threads while members are stopped, fail or leave (handled by at most one member, by none when handed back, by exactly one when undisturbed, never Closed while an untouched member is joined) and a recording supervisor (started once, then exactly one matching end notice per child); choice-sequence minimisation and replay",
         "tiers": {
             "quick": {"runs": 100_000, "time_limit_s": 60},
             "thorough": {"runs": 30_000_000, "time_limit_s": 1500},
@@ -458,7 +458,7 @@ PROPS = {
         "rule": M_RULE,
         "real": K_REAL + ["compio-actor, compio-dispatcher; flume (vendored: its locks yield to the scheduler), futures-channel oneshot", "real OS threads (std::thread), std's Mutex (registry, process-group and cluster locks; their futex waits end when the futex word changed), the real eventfd of each driver's notifier"],
         "stub": M_STUB,
-        "assumptions": M_ASSUME + ["process groups and supervisors are not part of the generated programs yet"],
+        "assumptions": M_ASSUME + ["process groups are exercised with the round-robin strategy (the only one), supervisors as passive recorders (a supervisor that restarts children is not generated)"],
         "level_text": ("Seeded exploration of thread interleavings of actor programs (spawn named/unnamed with small capacities, send, call, stop, failing handlers, self-stop, lookups from several threads): messages are handled one at a time, at most once, per sender in acceptance order without gaps, all of them when the actor was not stopped; "
                        "hooks run once in the documented order; calls return a reply or an explicit error and never hang once the actor is gone; names map to the live actor only and are reusable after exit or failed start."),
         "level_note": "Acceptance order across different senders is not observable from outside and is not judged.",
